@@ -1,6 +1,15 @@
 (* Proofs about the open-addressing table model of Table.v (C20, table part).
-   Main results (end of file): table_refines_map_lemma, table_no_failure_lemma,
-   tresize_grow_lemma, tagmap_refines_lemma, current_constants_ok. *)
+   Main results (towards the end of the file):
+     table_refines_map_lemma      outputs of every history = outputs of an association list
+                                  (all hash functions, all parameters with params_ok)
+     table_no_failure_lemma       no Crash / Hang is reachable
+     table_refines_map_eq_lemma   literal equality for histories that do not iterate
+     tresize_grow_lemma           public resize to a capacity that is not smaller
+     smap_/uset_/stylemap_refines_..., tagmap_refines_lemma   the four C++ instances
+     current_constants_ok         the generated constants meet params_ok
+     threshold_9_hangs            the side condition on the threshold is needed
+   Proof plan: DESIGN.md Appendix A.1 (invariant = length, distinct keys, count, room, chain;
+   deletion through the chain-or-pending loop invariant [cp]). *)
 Require Import Base Generated Table.
 From Coq Require Import Arith PeanoNat Lia Permutation.
 
@@ -1251,7 +1260,9 @@ Proof.
   - eapply IH; eauto.
 Qed.
 
-(* the items met by an iteration are exactly the bindings, each key once *)
+(* the public resize(c) towards a capacity c >= max(capacity, INITIAL) keeps the contents and the
+   invariant (histories containing it are otherwise outside the theorems above: a smaller c makes
+   set -> resize nest, which the model follows with bounded depth but the proofs do not) *)
 Theorem tresize_grow_lemma t m c :
   params_ok -> R t m -> cap t <= c -> initial <= c ->
   exists t', tresize t c = Ok t' /\ cap t' = c /\ R t' m.
